@@ -172,6 +172,11 @@ func (m *mockThings) FindByWithMeta(ctx *restli.RequestContext, p *things.FindBy
 	}
 	return &things.FindByWithMetaElements{Elements: []*vt.Item{{Name: "m"}}, Metadata: &vt.Meta{Total: 41}}, err
 }
+func (m *mockThings) FindByCrit(ctx *restli.RequestContext, p *things.FindByCritParams) (*things.Elements, error) {
+	m.ctx = ctx
+	err := m.rec(call{method: "finder:crit", q: p.Crit.V})
+	return &things.Elements{}, err
+}
 func (m *mockThings) PingAction(ctx *restli.RequestContext, p *things.PingActionParams) (string, error) {
 	m.ctx = ctx
 	err := m.rec(call{method: "action:ping", msg: p.Msg})
@@ -268,6 +273,10 @@ func registerAll(s restli.Server, m *mockThings) {
 	things.RegisterResource(s, m)
 	parts.RegisterResource(s, &mockParts{m})
 	info.RegisterResource(s, &mockInfo{m})
+}
+
+func c06DecodeCrit(query string) (*things.FindByCritParams, error) {
+	return restlicodec.UnmarshalQueryParamsDecoder[*things.FindByCritParams](query)
 }
 
 func c06DecodeSearch(query string) (*things.FindBySearchParams, error) {
